@@ -420,7 +420,7 @@ def run(chk):
         want = DOC.get(name)
         chk.instance(r_op, "formula:" + name, sample=dict(function=name, returns=got, documented=want))
         if want is None:
-            chk.violation(r_op, "formula:" + name, "OPERATE function %s has no documented formula in rules/C12.py (confirm and add it)" % name, f["file"], f["l"])
+            chk.fail_broken("C12.operate: OPERATE function %s has no documented formula in rules/C12.py (confirm it against the manual and add it)" % name)
         else:
             if not canon_equal(got, want):
                 chk.violation(r_op, "formula:" + name, "OPERATE %s computes %s; the documented operation is %s" % (name, got, want), f["file"], rets[0]["l"])
